@@ -41,7 +41,7 @@ macro_rules! with_t {
     ($r:expr, $v:ident, $T:ident => $body:expr) => {{
         let __s = $r.series("xs");
         match $crate::types::elem_type($r) {
-            "f64" => { type $T = f64; let $v: Vec<$T> = __s.iter().map(|x| <$T as El>::mk(*x)).collect(); $body },
+            "f64" => { type $T = f64; let $v: Vec<$T> = crate::types::as_f64(&__s); $body },
             "of64" => { type $T = Option<f64>; let $v: Vec<$T> = __s.iter().map(|x| <$T as El>::mk(*x)).collect(); $body },
             "i32" => { type $T = i32; let $v: Vec<$T> = __s.iter().map(|x| <$T as El>::mk(*x)).collect(); $body },
             "oi32" => { type $T = Option<i32>; let $v: Vec<$T> = __s.iter().map(|x| <$T as El>::mk(*x)).collect(); $body },
